@@ -305,14 +305,26 @@ fn alloc_bytes<'tcx>(tcx: TyCtxt<'tcx>, alloc_id: mir::interpret::AllocId, max: 
     }
 }
 
-fn const_operand_json<'tcx>(tcx: TyCtxt<'tcx>, c: &ConstOperand<'tcx>) -> J {
+fn const_operand_json<'tcx>(tcx: TyCtxt<'tcx>, c: &ConstOperand<'tcx>, owner: Option<DefId>) -> J {
     let t = c.const_.ty();
     let mut v: Vec<(&str, J)> = vec![("k", J::s("const")), ("ty", ty_json(tcx, t)), ("s", J::s(&format!("{}", c.const_)))];
     if let ty::FnDef(did, args) = t.kind() {
         v.push(("fn", callee_json(tcx, *did, args, None)));
         return J::obj(v);
     }
-    match c.const_ {
+    let mut cst = c.const_;
+    if let mir::Const::Unevaluated(uv, uty) = cst {
+        if uv.promoted.is_none() {
+            if let Some(owner) = owner {
+                let env = TypingEnv::post_analysis(tcx, owner);
+                if let Ok(val) = cst.eval(tcx, env, c.span) {
+                    v.push(("evaluated_from", J::s(&path(tcx, uv.def))));
+                    cst = mir::Const::Val(val, uty);
+                }
+            }
+        }
+    }
+    match cst {
         mir::Const::Val(cv, _) => match cv {
             mir::ConstValue::Scalar(mir::interpret::Scalar::Int(si)) => {
                 let sz = si.size();
@@ -376,7 +388,7 @@ fn operand_json<'tcx>(tcx: TyCtxt<'tcx>, body: &mir::Body<'tcx>, o: &Operand<'tc
     match o {
         Operand::Copy(p) => J::obj(vec![("k", J::s("copy")), ("place", place_json(tcx, body, p))]),
         Operand::Move(p) => J::obj(vec![("k", J::s("move")), ("place", place_json(tcx, body, p))]),
-        Operand::Constant(c) => const_operand_json(tcx, c),
+        Operand::Constant(c) => const_operand_json(tcx, c, Some(body.source.def_id())),
         #[allow(unreachable_patterns)]
         _ => J::obj(vec![("k", J::s("other_operand")), ("s", J::s(&format!("{:?}", o)))]),
     }
@@ -548,6 +560,7 @@ fn rvalue_json<'tcx>(tcx: TyCtxt<'tcx>, body: &mir::Body<'tcx>, rv: &Rvalue<'tcx
                     let def = tcx.adt_def(*did);
                     let var = def.variant(*vi);
                     v.push(("variant_name", J::s(var.name.as_str())));
+                    v.push(("is_enum", J::b(def.is_enum())));
                     v.push((
                         "fields",
                         J::Arr(var.fields.iter().map(|f| J::s(f.name.as_str())).collect()),
@@ -627,15 +640,7 @@ fn body_json<'tcx>(tcx: TyCtxt<'tcx>, did: DefId, body: &mir::Body<'tcx>, promot
     }
     // generics
     if matches!(tcx.def_kind(did), DefKind::Fn | DefKind::AssocFn | DefKind::Closure) {
-        let g = tcx.generics_of(did);
-        let mut names = vec![];
-        let mut cur = Some(g);
-        while let Some(gg) = cur {
-            for p in gg.own_params.iter() {
-                names.push(J::s(p.name.as_str()));
-            }
-            cur = gg.parent.map(|pp| tcx.generics_of(pp));
-        }
+        let names = generic_names(tcx, did);
         v.push(("generics", J::Arr(names)));
     }
     // locals
@@ -795,6 +800,18 @@ fn body_json<'tcx>(tcx: TyCtxt<'tcx>, did: DefId, body: &mir::Body<'tcx>, promot
     J::obj(v)
 }
 
+fn generic_names<'tcx>(tcx: TyCtxt<'tcx>, did: DefId) -> Vec<J> {
+    let g = tcx.generics_of(did);
+    let mut names = vec![];
+    if let Some(p) = g.parent {
+        names = generic_names(tcx, p);
+    }
+    for p in g.own_params.iter() {
+        names.push(J::s(p.name.as_str()));
+    }
+    names
+}
+
 fn dump_crate<'tcx>(tcx: TyCtxt<'tcx>, name: &str) -> J {
     let mut bodies = vec![];
     let mut promoteds = vec![];
@@ -855,6 +872,7 @@ fn dump_crate<'tcx>(tcx: TyCtxt<'tcx>, name: &str) -> J {
                     ("kind", J::s(if def.is_enum() { "enum" } else if def.is_union() { "union" } else { "struct" })),
                     ("vis", J::s(&if vis.is_public() { "pub".to_string() } else { format!("{:?}", vis) })),
                     ("variants", J::Arr(vars)),
+                    ("generics", J::Arr(generic_names(tcx, did))),
                     ("span", span_json(tcx, tcx.def_span(did))),
                 ]));
             }
@@ -888,6 +906,7 @@ fn dump_crate<'tcx>(tcx: TyCtxt<'tcx>, name: &str) -> J {
                     ("def", J::s(&path(tcx, did))),
                     ("self_ty", ty_json(tcx, st)),
                     ("auto_derived", J::b(tcx.is_automatically_derived(did))),
+                    ("generics", J::Arr(generic_names(tcx, did))),
                     ("span", span_json(tcx, tcx.def_span(did))),
                 ];
                 if let Some(tr) = tcx.impl_opt_trait_ref(did) {
@@ -895,6 +914,11 @@ fn dump_crate<'tcx>(tcx: TyCtxt<'tcx>, name: &str) -> J {
                     v.push(("trait", J::s(&path(tcx, tr.def_id))));
                     v.push(("trait_full", J::s(&format!("{}", tr))));
                     v.push(("trait_local", J::b(tr.def_id.is_local())));
+                    let mut ta = vec![];
+                    for ga in tr.args.iter().skip(1) {
+                        ta.push(garg_json(tcx, ga, 0));
+                    }
+                    v.push(("trait_args", J::Arr(ta)));
                 }
                 let mut items = vec![];
                 for ai in tcx.associated_items(did).in_definition_order() {
